@@ -141,4 +141,24 @@ theorem C07_filter_prints_originals (o : Filter.Opts) (slabCap : Nat) (query : S
 example : exitOutput true (fun i => [97 + i]) [113] { results := [0, 1], selected := [1, 0], outcome := some .accept }
     = (0, [[113], [98], [97]]) := by decide
 
+/-- **--expect line.** With --expect the line naming the key that ended the session (empty for any
+    other way of accepting) comes after the --print-query line and before everything else; it does
+    not change the exit status, and abort / print-query never print it. -/
+theorem C07_expect_line_order (pq : Bool) (lineOf : Nat → Str) (q : Str) (s : TS) (key : Str) :
+    (s.outcome = some .accept →
+      (exitOutput pq lineOf q s (some key)).2 =
+        (if pq then [q] else []) ++ [key] ++ s.printQueue ++
+          (if s.selected ≠ [] then s.selected.map lineOf else ((currentItem s).map lineOf).toList) ∧
+      (exitOutput pq lineOf q s (some key)).1 = (exitOutput pq lineOf q s).1) ∧
+    (s.outcome = some .abort → exitOutput pq lineOf q s (some key) = (130, [])) ∧
+    (s.outcome = some .printQuery → exitOutput pq lineOf q s (some key) = (0, [q])) := by
+  refine ⟨fun h => ?_, fun h => by simp [exitOutput, h], fun h => by simp [exitOutput, h]⟩
+  simp only [exitOutput, h]
+  cases hs : s.selected with
+  | nil => cases hc : currentItem s <;> simp
+  | cons a rest => simp
+
+example : exitOutput true (fun i => [97 + i]) [113] { results := [0, 1], selected := [1], outcome := some .accept } (some [120])
+    = (0, [[113], [120], [98]]) := by decide
+
 end Fzf.Props.C07
